@@ -142,7 +142,7 @@ fn check_monotone_kraft(lf: &LenFn, ctx: &Ctx, rep: &mut Report) {
     let f = |n: u64| lf.call(n);
     let kvf = || format!("part=lengths fn={}", lf.name);
     // (a) consecutive values: monotone, equal to the model, partial Kraft sums <= 1
-    let dense: u64 = ctx.pick(1 << 8, 1 << 16, 1 << 20);
+    let dense: u64 = ctx.pick(1 << 8, 1 << 18, 1 << 20);
     let mut prev = f(0);
     let mut sum = U256::ZERO;
     let mut small_terms = 0u64;
@@ -440,7 +440,7 @@ pub fn run(ctx: &Ctx) -> Report {
                 }
                 check_synthetic(&(1..=300).collect::<Vec<u64>>(), 0, rep);
             }
-            for _ in 0..ctx.pick(5, 300, 3000) {
+            for _ in 0..ctx.pick(5, 2000, 10000) {
                 let n = rng.below(12) as usize;
                 let mut steps: Vec<u64> = (0..n)
                     .map(|_| match rng.below(4) {
